@@ -391,6 +391,9 @@ func runC17(c C17Case) *Result {
 				return res
 			}
 			led.hashes(fmt.Sprintf("block %d round %d Proof.Update result", bi, round), newH)
+			// the cached proof itself is a result too: a caller may keep a copy of the Proof value
+			// (kept := proof) and expects it to stay the proof of THIS state
+			led.proof(fmt.Sprintf("block %d round %d cached proof after Proof.Update", bi, round), lcProof)
 
 			if after("Pollard.Modify", pol.P.Modify(adds, delH, bp)) {
 				return res
@@ -424,6 +427,7 @@ func runC17(c C17Case) *Result {
 					return res
 				}
 				led.hashes(fmt.Sprintf("block %d Proof.Undo result", bi), backH)
+				led.proof(fmt.Sprintf("block %d cached proof after Proof.Undo", bi), lcProof)
 				// resynchronise the light client to the exact pre-block value so that both rounds get the same input
 				lcProof = prevLC
 				*stump = prevStump
